@@ -683,7 +683,7 @@ func (v *Verifier) havocBySummary(s *State, fn *ssa.Function, prefix string, wit
 		// ghost globals are package-scoped: a call whose target is unknown can change those of the callee's own
 		// package; those of other packages only through contracts that name them (or closures handed over, which are
 		// accounted for at the call site)
-		if sum.ghosts[g] || (sum.anyGhost && v.contracts.ghostInScope(g, shortPkg(fnPkg(fn).Path()))) {
+		if sum.ghosts[g] || (sum.anyGhost && v.contracts.ghostInScope(g, shortPkg(fnPkg(fn).Path())) && !v.contracts.ghostQuiet(g, shortPkg(fnPkg(fn).Path()))) {
 			if gv := s.ghost[g]; isMap(gv.T) {
 				// a ghost map keeps its identity; its contents are unknown
 				ms := map[string]Sort{}
